@@ -22,6 +22,7 @@ double G_ex, G_ey;   /* image of vertex GK under the map, computed once at entry
 uint64_t GW_minx, GW_maxx, GW_miny, GW_maxy;   /* ghost witnesses: index of the vertex attaining each side */
 double *G_pc;          /* entry value of the coordinate pointer a loop advances */
 double G_a, G_b, G_c, G_d;   /* entry values of lattice vector components / of coordinate GK */
+uint64_t GI, GJ;                /* ghost lattice indices: arbitrary, never assigned */
 uint64_t G_t0;               /* entry value of a kind tag */
 double G_ca, G_sa;   /* cos / sin of the angle argument (uninterpreted), taken at entry */
 /* scale about a centre: (p - c) * s + c */
